@@ -347,8 +347,8 @@ theorem create_ok {cfg : Cfg} {pol : Policy} {i : Nat} {w : World} {A : Obj} {oi
   cases bp <;> simp [h]
 
 theorem load_ok {w : World} (hw : Inv w) {a : Oid} {A : Obj} (hA : getO w.objs a = some A)
-    (cfg : Cfg) (pol : Policy) (i : Nat) (p : Path) :
-    StepOK cfg.bb w.objs (doLoad cfg pol i w A p).1 (recOfR a (.load p) (doLoad cfg pol i w A p)) := by
+    (cfg : Cfg) (pol : Policy) (i : Nat) (p : Path) (p' : Path) :
+    StepOK cfg.bb w.objs (doLoad cfg pol i w A p).1 (recOfR a (.load p') (doLoad cfg pol i w A p)) := by
   have hAo := (getO_some hA).2
   subst hAo
   unfold doLoad recOfR
@@ -441,10 +441,11 @@ theorem load_ok {w : World} (hw : Inv w) {a : Oid} {A : Obj} (hA : getO w.objs a
 
 theorem exists_reserved {p : Path} (h : p.exists = true) : p.oid ∈ reservedOids := by
   obtain ⟨d, f⟩ := p
-  simp only [Path.exists, dirs, files, Bool.and_eq_true, List.contains_iff_mem, List.mem_cons,
-    List.not_mem_nil, or_false] at h
-  obtain ⟨hd, hf⟩ := h
-  rcases hd with rfl | rfl | rfl | rfl | rfl <;> rcases hf with rfl | rfl | rfl <;> decide
+  simp only [Path.exists, dirs, files, Bool.or_eq_true, Bool.and_eq_true, List.contains_iff_mem, List.mem_cons,
+    List.not_mem_nil, or_false, decide_eq_true_eq] at h
+  rcases h with ⟨hd, hf⟩ | h
+  · rcases hd with rfl | rfl | rfl | rfl | rfl <;> rcases hf with rfl | rfl | rfl <;> decide
+  · rw [h]; decide
 
 /-- generic assembly for load/clone steps past the euid test -/
 theorem stepOK_created {cfg : Cfg} {w : World} {A : Obj} (_hw : Inv w) (hA : getO w.objs A.oid = some A)
